@@ -40,6 +40,46 @@ func c15Enc(published uint32, expires uint16) []byte {
 
 func runC15(c *Ctx) {
 	r := c.R
+	// second <-> millisecond conversions over the whole range of millisecond dates below 2^63:
+	// every byte position of the 8-byte Date is exercised (values at 2^(8k) and just below)
+	for k := uint(0); k < 63; k++ {
+		for _, ms := range []int64{int64(1) << k, int64(1)<<k - 1, int64(1)<<k | 0x0123456789abcdef&(int64(1)<<k-1)} {
+			if ms < 0 {
+				continue
+			}
+			c.Case(E_NewDateFromMillis, [][]byte{i64(ms)}, func() Obs {
+				d, err := data.NewDateFromMillis(ms)
+				ok := err == nil && d != nil && bytes.Equal(d.Bytes(), beBytes(uint64(ms), 8)) && d.Time().UnixMilli() == ms
+				c.Check("millis_exact", ok, "NewDateFromMillis", [][]byte{i64(ms)}, "", fmt.Sprintf("ms=%d: date bytes %x", ms, func() []byte {
+					if d == nil {
+						return nil
+					}
+					return d.Bytes()
+				}()))
+				if err != nil {
+					return ERR()
+				}
+				return OK(d.Bytes())
+			})
+			sec, nsec := ms/1000, (ms%1000)*1000000
+			c.Case(E_DateFromTime, [][]byte{i64(sec), i64(nsec)}, func() Obs {
+				d, _ := data.DateFromTime(time.Unix(sec, nsec))
+				c.Check("millis_exact", bytes.Equal(d.Bytes(), beBytes(uint64(ms), 8)), "DateFromTime", [][]byte{i64(sec), i64(nsec)}, "", fmt.Sprintf("ms=%d: date bytes %x", ms, d.Bytes()))
+				return OK(d.Bytes())
+			})
+			if ms%1000 == 0 {
+				s := ms / 1000
+				c.Case(E_NewDateFromUnix, [][]byte{i64(s)}, func() Obs {
+					d, err := data.NewDateFromUnix(s)
+					if err != nil {
+						return ERR()
+					}
+					c.Check("millis_exact", bytes.Equal(d.Bytes(), beBytes(uint64(ms), 8)), "NewDateFromUnix", [][]byte{i64(s)}, "", fmt.Sprintf("s=%d: date bytes %x", s, d.Bytes()))
+					return OK(d.Bytes())
+				})
+			}
+		}
+	}
 	pubs := []uint32{0, 1, 1 << 31, 1<<31 - 1, 1<<32 - 1, 1<<32 - 2, 1700000000, 2147483648 + 65535, 4294901760}
 	exps := []uint16{0, 1, 2, 659, 660, 32767, 32768, 65534, 65535}
 	pe := func(p uint32, e uint16) {
